@@ -13,6 +13,7 @@ let () =
     | "lints" -> M_lints.handle
     | "emit" -> M_emit.handle
     | "request" -> M_request.handle
+    | "doc" -> M_doc.handle
     | _ -> prerr_endline ("unknown component " ^ comp); exit 2 in
   let out = Buffer.create 65536 in
   (try while true do
